@@ -2286,7 +2286,13 @@ class KmipEngine(object):
                         name
                     )
                     if attribute is None:
-                        continue
+                        self._logger.debug(
+                            "Failed match: "
+                            "the specified attribute ({}) is not set on the "
+                            "object.".format(name)
+                        )
+                        add_object = False
+                        break
                     elif name == "Application Specific Information":
                         application_namespace = value.application_namespace
                         application_data = value.application_data
